@@ -107,7 +107,7 @@ pub fn concretise_token(c: &mut Concretiser, t: &Value) -> schema::Biscuit {
     let authority = blocks.remove(0);
     let rkid = t["rkid"].as_u64().unwrap();
     schema::Biscuit {
-        root_key_id: if rkid > 0 { Some(rkid as u32) } else { None },
+        root_key_id: if rkid == 1 { Some(c.hint) } else if rkid > 0 { Some(rkid as u32) } else { None },
         authority,
         blocks,
         proof: schema::Proof {
@@ -319,7 +319,7 @@ fn builder_for(p: &str) -> BlockBuilder {
 }
 
 /// run one honest op through the real API. `unverified`: use UnverifiedBiscuit for this step
-fn run_op(op: &Value, toks: &[Tok], unverified: bool) -> Result<Tok, String> {
+fn run_op(op: &Value, toks: &[Tok], unverified: bool, hint: u32) -> Result<Tok, String> {
     let name = op["op"].as_str().unwrap();
     let from = op["from"].as_u64().unwrap() as usize;
     let e = |e: biscuit_auth::error::Token| format!("{e:?}");
@@ -328,7 +328,8 @@ fn run_op(op: &Value, toks: &[Tok], unverified: bool) -> Result<Tok, String> {
         let nk = keys::keypair_of(&op["nk"]);
         let mut b = Biscuit::builder().code(payload_code(op["p"].as_str().unwrap())).map_err(e)?;
         if op["rkid"].as_u64().unwrap() > 0 {
-            b = b.root_key_id(op["rkid"].as_u64().unwrap() as u32);
+            let k = op["rkid"].as_u64().unwrap() as u32;
+            b = b.root_key_id(if k == 1 { hint } else { k });
         }
         return b.build_with_key_pair(&root, SymbolTable::new(), &nk).map(Tok::V).map_err(e);
     }
@@ -399,11 +400,14 @@ fn replay_honest(c: &mut Concretiser, idx: usize, case: &Value) -> Value {
     let mut checked = 0usize;
     // histories with a payload that declares a public key: block bytes depend on what earlier blocks declared
     let byte_exact = !log.iter().any(|op| op["p"].as_str().map(contextual).unwrap_or(false));
-    for mask in 0..nmasks {
+    // a history whose token carries a root key id hint is replayed with the id 1 and with the id 0
+    let hints: Vec<u32> = if log.iter().any(|op| op["rkid"].as_u64() == Some(1)) { vec![1, 0] } else { vec![1] };
+    for (mask, hint) in (0..nmasks).flat_map(|m| hints.iter().map(move |h| (m, *h))) {
+        c.hint = hint;
         let mut real: Vec<Tok> = Vec::new();
         for (i, op) in log.iter().enumerate() {
             let unv = i > 0 && (mask >> (i - 1)) & 1 == 1;
-            let r = util::catch(|| run_op(op, &real, unv)).unwrap_or_else(|p| Err(format!("PANIC {p}")));
+            let r = util::catch(|| run_op(op, &real, unv, hint)).unwrap_or_else(|p| Err(format!("PANIC {p}")));
             match r {
                 Ok(t) => {
                     let bytes = t.to_vec();
@@ -432,7 +436,7 @@ fn replay_honest(c: &mut Concretiser, idx: usize, case: &Value) -> Value {
                                     problems.push(format!("mask {mask} step {i} {path}: re-serialisation differs"));
                                 }
                                 let rk = spec_toks[i]["tok"]["rkid"].as_u64().unwrap();
-                                let want_rk = if rk > 0 { Some(rk as u32) } else { None };
+                                let want_rk = if rk == 1 { Some(hint) } else if rk > 0 { Some(rk as u32) } else { None };
                                 if b.root_key_id() != want_rk {
                                     problems.push(format!("mask {mask} step {i} {path}: root key id {:?} != {:?}", b.root_key_id(), want_rk));
                                 }
@@ -489,7 +493,7 @@ fn replay_honest(c: &mut Concretiser, idx: usize, case: &Value) -> Value {
                 for unv in [false, true] {
                     for name in ["append", "append3p", "request", "seal"] {
                         let op = json!({"op": name, "from": i + 1, "nk": {"id": "KX", "alg": "ed"}, "ek": {"id": "E", "alg": "ed"}, "p": if name == "append3p" {"T1"} else {"P1"}});
-                        let r = util::catch(|| run_op(&op, &real, unv)).unwrap_or_else(|p| Err(format!("PANIC {p}")));
+                        let r = util::catch(|| run_op(&op, &real, unv, hint)).unwrap_or_else(|p| Err(format!("PANIC {p}")));
                         match r {
                             Ok(_) => problems.push(format!("mask {mask}: {name} on sealed token {i} (unverified={unv}) succeeded")),
                             Err(e) if e.starts_with("PANIC") => problems.push(format!("mask {mask}: {name} on sealed token {i}: {e}")),
@@ -553,7 +557,7 @@ pub fn cmd_unique(n: usize, output: &str) {
 pub fn run_log(log: &[Value]) -> Result<Vec<Tok>, String> {
     let mut toks: Vec<Tok> = Vec::new();
     for op in log {
-        let t = run_op(op, &toks, false)?;
+        let t = run_op(op, &toks, false, 1)?;
         toks.push(t);
     }
     Ok(toks)
